@@ -212,6 +212,25 @@ pub fn diagram_mutations(rng: &mut Rng, base: &str, n: usize) -> Vec<String> {
     for h in headers {
         out.push(format!("{}\n{}\n", h, body));
     }
+    // very tall and very wide diagrams: the cell index passes 255 / 65535 (a narrower index type would
+    // wrap or overflow), with blank extra cells and with a piece in the far corner
+    for extra in [1usize, 8, 23, 24, 25, 31, 32, 33, 64, 300, 9000] {
+        for piece_at_end in [false, true] {
+            let mut rows: Vec<String> = lines[2..10].iter().map(|s| s.to_string()).collect();
+            for k in 0..extra {
+                let last = piece_at_end && k + 1 == extra;
+                rows.push(format!("0| {} |", (0..8).map(|c| if last && c == 7 { "r" } else { " " }).collect::<Vec<_>>().join(" ")));
+            }
+            out.push(format!("{}\n{}\n{}\n", lines[0], lines[1], rows.join("\n")));
+        }
+    }
+    for cells in [9usize, 31, 32, 33, 255, 256, 257, 300, 70000] {
+        for (row, piece_at_end) in [(0usize, false), (7, false), (3, true), (7, true)] {
+            let mut rows: Vec<String> = lines[2..10].iter().map(|s| s.to_string()).collect();
+            rows[row] = format!("{}| {} |", 8 - row, (0..cells).map(|c| if piece_at_end && c + 1 == cells { "C" } else { " " }).collect::<Vec<_>>().join(" "));
+            out.push(format!("{}\n{}\n{}\n", lines[0], lines[1], rows.join("\n")));
+        }
+    }
     for _ in 0..n {
         let mut rows: Vec<String> = lines[2..10].iter().map(|s| s.to_string()).collect();
         let mut header = if rng.chance(1, 3) { rng.pick(&headers).to_string() } else { lines[0].to_string() };
